@@ -133,6 +133,32 @@ LOOPS[(CM + "purge", 1)] = LoopSpec(
 HEX_TASKS = {CM + "purge": dict(builder=manager_builder, contract=PURGE)}
 
 
+# ... and on two CONCRETE candles whose dicts hold entries with similar names: only the exactly named keys go (a purge that
+# enumerates a candle's keys - by prefix, substring, pattern - cannot be expressed in the series model above, which has one
+# array per key; here the dicts are concrete and the enumeration is executed)
+def manager_concrete_builder(ex, st):
+    from hexvc.state import DictP, ListP, ObjP, SetP
+    src = ex.ctx.source
+    mcls = src.module("hexital.core.candle_manager").classes["CandleManager"]
+    ccls = src.module("hexital.core.candle").classes["Candle"]
+    for c in (mcls, ccls):
+        src.resolve_class_bases(c)
+    mkc = lambda: st.alloc(ObjP(ccls, {"indicators": st.alloc(DictP({"SMA_2": 1.0, "SMA_20": 2.0, "EMA_5": 3.0, "xSMA_2": 4.0})),
+                                       "sub_indicators": st.alloc(DictP({"SMA_2_data": 5.0, "SMA_20_data": 6.0, "SMA_2x": 7.0})),
+                                       "_tag": None, "clean_values": st.alloc(DictP({}))}))
+    c1, c2 = mkc(), mkc()
+    m = st.alloc(ObjP(mcls, {"candles": st.alloc(ListP([c1, c2])), "timeframe": None, "timeframe_fill": False, "candles_lifespan": None, "candlestick_type": None}))
+    names = st.alloc(SetP(["SMA_2", "SMA_2_data"]))
+    yield st, [m, names], {}, {"self": m, "indicator": names, "c1": c1, "c2": c2}
+
+
+_KEPT = " and ".join(f"LenOf({c}.indicators) == 3 and LenOf({c}.sub_indicators) == 2 and {c}.indicators['SMA_20'] == 2.0 and {c}.indicators['EMA_5'] == 3.0"
+                     f" and {c}.indicators['xSMA_2'] == 4.0 and {c}.sub_indicators['SMA_20_data'] == 6.0 and {c}.sub_indicators['SMA_2x'] == 7.0" for c in ("c1", "c2"))
+HEX_TASKS[CM + "purge#concrete-similar-names"] = dict(
+    qualname=CM + "purge", builder=manager_concrete_builder,
+    contract=Contract(CM + "purge", ensures={"exactly-the-named-keys-go": _KEPT}, result_type="None", props=["C13", "C14"], use_at_calls=False))
+
+
 def graph_builder(clsq, kwargs):
     """a real composite indicator built by its real constructor and _initialise; `expected` = the names of every
     indicator object reachable through sub_indicators / managed_indicators (each writes under its own name)"""
